@@ -297,7 +297,7 @@ impl Phase for Random {
                 }
                 a
             } else {
-                let n = r.range(2, 70);
+                let n = if r.chance(1, 2) { r.range(2, 70) } else { (*r.pick(&crate::gen::BOUNDARY_SIZES[..28])).max(2) };
                 let elems: Vec<Ast> = (1..=n as i64).map(c).collect();
                 match r.below(3) {
                     0 => Ast::Tuple(elems),
